@@ -103,7 +103,9 @@ def _simple(ctx, d):
         b = {"old": old, "g": grp, "n": A.at(e, "len(labels)"), "cy": mk("sub", ic.data["result"], const("y")), "len": glob("builtins.len")}
         ok = A.eq(e.data["value"], A.spec("old + (len(g) / n) * cy", b)) and old.op == "loopvar"
         init = old.args[2] if old.op == "loopvar" else None
-        ok = ok and init is not None and A.eq(init, A.spec("0 * grid", {"grid": d["grid"]})) and not zero_over_runtime(init)
+        ok = ok and init is not None and (A.eq(init, A.spec("0 * grid", {"grid": d["grid"]})) or any(
+            A.eq(init, A.spec(s_, {"grid": d["grid"], "np": glob("numpy"), "len": glob("builtins.len")}))
+            for s_ in ("np.zeros_like(grid)", "np.zeros(len(grid))", "np.zeros(grid.shape)"))) and not zero_over_runtime(init)
         name = e.data["name"]
         ok = ok and A.eq(ib.data["value"].args[0].args[0], A.at(ib, name))
     ctx.ob("R05.2", fq, acc[0].node if acc else None, ok, "overall objective = sum over groups of (len(group)/n) * y_g(grid), "
